@@ -24,7 +24,10 @@ def b(x):
 
 def build_lines(cid, s):
     """driver lines + expected values from one snapshot; returns (lines, expect, meta) or None if outside the model"""
-    if s['economics']['class'] not in ('Economics',):
+    ags = s['economics']['class'] == 'AGSEconomics'
+    if s['economics']['class'] not in ('Economics', 'AGSEconomics'):
+        return None
+    if ags and geo.enum_name(s['economics']['p']['econmodel']['value']) not in ('FCR', 'STANDARDIZED_LEVELIZED_COST', 'BICYCLE'):
         return None
     E, W, S, R = s['economics']['p'], s['wellbores']['p'], s['surfaceplant']['p'], s['reserv']['p']
     A = s['economics']['attr']
@@ -58,7 +61,7 @@ def build_lines(cid, s):
     depth = V('depth', R)
     depth_m = depth * 1000 if R['depth']['CurrentUnits'] in ('kilometer', 'km') else depth
     per_well_fixed = E['per_production_well_cost']['Valid']
-    if not per_well_fixed:
+    if not per_well_fixed and not ags:
         lines.append(f'wellcost {cid}wp c2={F(corr._c2)} c1={F(corr._c1)} c0={F(corr._c0)} simple={b(simple)} depth={F(depth_m)} '
                      f'perM={F(V("Vertical_drilling_cost_per_m"))} adj={F(V("production_well_cost_adjustment_factor"))}')
         expect['wp'] = ('cost_one_production_well', V('cost_one_production_well'), 'cost')
@@ -227,6 +230,19 @@ def gen_cases(rng, n):
                 p['District Heating O&M Cost'] = rng.choice([0.1, 1])
             p['District Heating Piping Cost Rate'] = rng.choice([700, 1200])
         cases.append((f'grid:{econ}/{eu}/{pl}#{k}', p))
+    # closed-loop runs under the classical economic models (AGSEconomics delegates to Economics.Calculate)
+    for k in range(max(6, n // 25)):
+        p = geo.ags_params(rng.choice([1, 2, 3]), L=rng.choice([20, 40]))
+        for name, vals in FIXABLE:
+            if rng.random() < 0.15:
+                p[name] = rng.choice(vals)
+        if rng.random() < 0.5:
+            p['Investment Tax Credit Rate'] = rng.choice([0.1, 0.3])
+            p['One-time Grants Etc'] = rng.choice([0, 2.0])
+            p['One-time Flat License Fees Etc'] = rng.choice([0, 0.4])
+        if rng.random() < 0.4:
+            p['Reservoir Stimulation Capital Cost'] = rng.choice([0, 1.25])
+        cases.append((f'ags#{k}', p))
     return cases
 
 
